@@ -458,4 +458,35 @@ theorem nbits_encInfo_conforms (i : Info R) (hc : i.Conforms) (hna : Info.IntNoA
     exact Nat.le_trans (nbits_cat_le (x := 2) (y := 920) (nbits_eBits _) <| nbits_cat_le (x := 302) (y := 618) (nbits_eAddr_nonext _ (isInt_nonext hc.1)) <|
       nbits_cat_le (x := 522) (y := 96) (nbits_eAddr_le _) <| nbits_cat_le (x := 64) (y := 32) (nbits_eUint _ _) (nbits_eUint _ _)) (by omega)
 
+theorem nbits_eRefTo (ops : CellOps R) (e : Enc R) : Enc.nbits (eRefTo ops e) ≤ 0 := by
+  unfold eRefTo; split
+  · exact nbits_eRef _
+  · exact nbits_none
+
+theorem nrefs_eRefTo (ops : CellOps R) (e : Enc R) : Enc.nrefs (eRefTo ops e) ≤ 1 := by
+  unfold eRefTo; split
+  · exact nrefs_eRef _
+  · simp [Enc.nrefs]
+
+/-- `addr_none` or `addr_std` without anycast -/
+def PlainAddr (a : Addr) : Prop := a = Addr.none ∨ ∃ w h, a = Addr.std none w h
+
+theorem nbits_eAddr_plain {a : Addr} (h : PlainAddr a) : Enc.nbits (eAddr a : Enc R) ≤ 267 := by
+  rcases h with rfl | ⟨w, hh, rfl⟩
+  · exact Nat.le_trans (nbits_eBits _) (by simp)
+  · exact nbits_eAddr_std_none _ _
+
+theorem size_encSaleData (ops : CellOps R) (s : SaleData) (hm : PlainAddr s.marketplace) (hn : PlainAddr s.nft)
+    (ho : PlainAddr s.nftOwner) : Enc.nbits (encSaleData ops s) ≤ 959 ∧ Enc.nrefs (encSaleData ops s) ≤ 1 := by
+  unfold encSaleData
+  constructor
+  · exact Nat.le_trans (nbits_cat_le (x := 1) (y := 958) (nbits_eBool _) <| nbits_cat_le (x := 32) (y := 926) (nbits_eUint _ _) <|
+      nbits_cat_le (x := 267) (y := 659) (nbits_eAddr_plain hm) <| nbits_cat_le (x := 267) (y := 392) (nbits_eAddr_plain hn) <|
+      nbits_cat_le (x := 267) (y := 125) (nbits_eAddr_plain ho) <| nbits_cat_le (x := 124) (y := 1) (nbits_eGrams _) <|
+      nbits_cat_le (x := 0) (y := 1) (nbits_eRefTo ops _) (nbits_eBool _)) (by omega)
+  · exact Nat.le_trans (nrefs_cat_le (x := 0) (y := 1) (nrefs_eBool _) <| nrefs_cat_le (x := 0) (y := 1) (nrefs_eUint _ _) <|
+      nrefs_cat_le (x := 0) (y := 1) (nrefs_eAddr _) <| nrefs_cat_le (x := 0) (y := 1) (nrefs_eAddr _) <|
+      nrefs_cat_le (x := 0) (y := 1) (nrefs_eAddr _) <| nrefs_cat_le (x := 0) (y := 1) (nrefs_eGrams _) <|
+      nrefs_cat_le (x := 1) (y := 0) (nrefs_eRefTo ops _) (nrefs_eBool _)) (by omega)
+
 end TonVerif.Proofs.Message
